@@ -297,8 +297,11 @@ def frame1(ctx: Ctx, chk) -> None:
     why = ""
     if not rets:
         good, why = False, "read returns nothing"
+    la_r = ctx.I.local_assigns(read_i)
     for r in rets:
         v = r.value
+        if isinstance(v, ast.Name) and len(la_r.get(v.id) or []) == 1 and isinstance(la_r[v.id][0], ast.expr):
+            v = la_r[v.id][0]  # a local bound once to the decoded line
         if not (isinstance(v, ast.Call) and isinstance(v.func, ast.Attribute) and v.func.attr == "decode"):
             good, why = False, f"returns `{norm(v)}` instead of the decoded line"
             break
@@ -395,6 +398,12 @@ def resync2(ctx: Ctx, chk, read, discards) -> None:
         p = g.reach_avoiding(starts, lambda x: x in rets, lambda x: x in ru, labels_skip=("exc",), from_succ=False, truth=truth)
         resets = [x for x in g.nodes if x.kind == "stmt" and isinstance(x.ast, ast.Assign) and isinstance(x.ast.value, ast.Constant) and x.ast.value.value is False and any(cn.canon(t) in flags for t in x.ast.targets)]
         p_loop = g.reach_avoiding(starts, lambda x: x in ru, lambda x: x in resets or x in rets, labels_skip=("exc",), from_succ=False, truth=truth)
+        # ... and the flag is cleared before anything done with the skipped tail can fail: a read() that raises while the
+        # flag is still set makes the *next* read discard a line that has nothing to do with the over-long one
+        p_exc = g.reach_avoiding(starts, lambda x: x is g.raise_exit, lambda x: x in resets or x in ru, from_succ=False, truth=truth)
+        if p is None and p_loop is None and p_exc is not None:
+            chk.refute(rule, key, f"after the rest of the over-long line was read, read() can fail before {flags[0]} is cleared ({' -> '.join(g.path_text(p_exc)[:4])}): the error is reported, but the flag stays set and the next read() silently discards the well-formed line that follows", ctx.loc(read, p_exc[0].ast if p_exc and p_exc[0].ast is not None else handler))
+            continue
         if p is None and p_loop is not None:
             chk.refute(rule, key, f"the skipped line loops back to readuntil without clearing {flags[0]} ({' -> '.join(g.path_text(p_loop)[:4])}): after one over-long line every following line is skipped and read() never returns again", ctx.loc(read, handler))
         elif p is None:
